@@ -6,7 +6,10 @@ import io
 import sys
 
 from gunicorn.http.errors import (NoMoreData, ChunkMissingTerminator,
-                                  InvalidChunkSize)
+                                  InvalidChunkSize, LimitRequestHeaders)
+
+# chunk-size line including any chunk extensions, without the CRLF
+MAX_CHUNK_SIZE_LINE = 8190
 
 
 class ChunkedReader:
@@ -41,15 +44,21 @@ class ChunkedReader:
         buf = io.BytesIO()
         buf.write(data)
 
+        # the trailer section is buffered like the header block, same cap
+        limit = self.req.max_buffer_headers
         idx = buf.getvalue().find(b"\r\n\r\n")
         done = buf.getvalue()[:2] == b"\r\n"
         while idx < 0 and not done:
+            if buf.tell() - 3 > limit:
+                raise LimitRequestHeaders("max buffer trailers")
             self.get_data(unreader, buf)
             idx = buf.getvalue().find(b"\r\n\r\n")
             done = buf.getvalue()[:2] == b"\r\n"
         if done:
             unreader.unread(buf.getvalue()[2:])
             return b""
+        if idx > limit:
+            raise LimitRequestHeaders("max buffer trailers")
         self.req.trailers = self.req.parse_headers(buf.getvalue()[:idx], from_trailer=True)
         unreader.unread(buf.getvalue()[idx + 4:])
 
@@ -81,8 +90,13 @@ class ChunkedReader:
 
         idx = buf.getvalue().find(b"\r\n")
         while idx < 0:
+            # do not buffer an endless size line (the last byte may be a CR)
+            if buf.tell() - 1 > MAX_CHUNK_SIZE_LINE:
+                raise InvalidChunkSize(buf.getvalue()[:64])
             self.get_data(unreader, buf)
             idx = buf.getvalue().find(b"\r\n")
+        if idx > MAX_CHUNK_SIZE_LINE:
+            raise InvalidChunkSize(buf.getvalue()[:64])
 
         data = buf.getvalue()
         line, rest_chunk = data[:idx], data[idx + 2:]
